@@ -10,13 +10,13 @@ func faultsFor(config string) []string {
 	common := []string{"none", "cberr", "cberr", "cancel-before", "cancel-at", "cancel-at"}
 	switch config {
 	case "mem-stream":
-		return append(common, "store-row", "store-row", "store-row-deadline", "cancel-in-read", "cancel-in-read-err")
+		return append(common, "store-row", "store-row", "store-row-deadline", "store-row-eof", "cancel-in-read", "cancel-in-read-err")
 	case "mem-paged":
-		return append(common, "store-read", "store-read", "store-read-deadline", "cancel-in-read", "cancel-in-read", "cancel-in-read-err")
+		return append(common, "store-read", "store-read", "store-read-deadline", "store-read-eof", "cancel-in-read", "cancel-in-read", "cancel-in-read-err")
 	case "sqlite", "sqlite-batched":
 		return append(common, "sql-next", "sql-next", "sql-query", "badrow", "cancel-in-read")
 	case "durable":
-		return append(common, "http-err", "http-500", "http-deadline", "cancel-in-read")
+		return append(common, "http-err", "http-500", "http-deadline", "http-eof", "cancel-in-read")
 	}
 	return common
 }
